@@ -185,7 +185,11 @@ def _observe_tool(case):
                 s["close_susp"] = 1
         c3["cons"] = {"fin": "close", "take": 1}
         world.RESILIENT[0] = False
+        mark3 = len(world.SUSP_LOG)
         base3 = run_async(c3)
+        # the tokens of the users' suspending aclose()s reach the driver, and its replies reach them
+        for tag, detail in _check_log(base3["tokens"], mark3):
+            issues.append(("early-close:" + tag, detail))
         world.RESILIENT[0] = True
         try:
             for j, tok in enumerate(base3["tokens"]):
@@ -425,6 +429,38 @@ def _conc_tee_close_busy():
     return [a(), b()], [0, 1, 0, 0, 1, 1]
 
 
+def _conc_close_busy(make):
+    """B closes a library iterator while A is suspended inside the user's source through it: whatever B's close does
+    (CPython refuses it for a running generator), B must not suspend on anything of the library's own"""
+    def build():
+        it = make(_agen(3))
+
+        async def a():
+            v = await A.anext(it)
+            return "item"
+
+        async def b():
+            try:
+                await it.aclose()
+                return "closed"
+            except RuntimeError:
+                return "busy"
+        return [a(), b()], [0, 1, 0, 0, 1, 1]
+    return build
+
+
+_CLOSE_BUSY = {
+    "conc_chain_close_busy": lambda src: A.chain(src, [1, 2]),
+    "conc_groupby_close_busy": lambda src: A.groupby(src),
+    "conc_borrow_close_busy": lambda src: A.borrow(src),
+    "conc_zip_close_busy": lambda src: A.zip(src, [1, 2, 3]),
+    "conc_map_close_busy": lambda src: A.map(lambda x: x, src),
+    "conc_islice_close_busy": lambda src: A.islice(src, 1, 3),
+    "conc_merge_close_busy": lambda src: A.merge(src, [], key=lambda x: x.id),
+    "conc_chain_from_iterable_close_busy": lambda src: A.chain.from_iterable([src, [1]]),
+}
+
+
 def _conc_tee_lock():
     lock = _Lock()
     t = A.tee(_agen(2), n=2, lock=lock)
@@ -565,6 +601,7 @@ CONC = {"conc_tee_close_busy": _conc_tee_close_busy, "conc_tee_lock": _conc_tee_
         "conc_groupby_parent_and_group": _conc_groupby_parent_and_group, "conc_groupby_same_group": _conc_groupby_same_group,
         "conc_tee_nolock": _conc_tee_nolock, "conc_borrow_two_readers": _conc_borrow_two_readers,
         "conc_cached_property_nolock": _conc_cached_property_nolock, "conc_contextmanager_overlap": _conc_contextmanager_overlap}
+CONC.update({name: _conc_close_busy(make) for name, make in _CLOSE_BUSY.items()})
 
 
 def _observe_conc(case):
